@@ -26,7 +26,12 @@ EXPLANATION = (
     "best that implies (on all weak orderings) that the value it records beats the best and its sibling candidate, and sets "
     "gain, targets, decision and leaf; (e) the guards imply admissible new cluster ids / existence of another cluster; (f) "
     "Kauri.fit applies the split with the same comparator, bumps n_clusters by the number of new targets and leaves its loop "
-    "only through its three-conjunct condition. Not decided: the incremental stock updates along the sorted scan, ties, rounding; "
+    "only through its three-conjunct condition; (g) the loop invariant of the threshold scan: every path through the scan body (to each continue / break, to the "
+    "evaluation of the candidate, to the end) is interpreted in the kernel-stock domain - each scalar a linear form over sigma(x,Sl), sigma(x,x), sigma(x,Sr-x), "
+    "sigma(x, C_k outside the leaf), sigma(x,C_a), accumulation loops classified by the index region they sum over for every leaf size 2..6 - and the four running "
+    "stocks must have moved by exactly the bilinear increments; the scan starts at position 0 and reaches the last admissible cut; the initial stocks are (empty, "
+    "whole leaf) by interpretation in a four-valued domain; (d) also: when both children favour the same cluster the larger of the two mixed sums is taken. "
+    "Not decided: rounding-level ties; "
     "the prebuilt extension module is not re-checked against the .pyx (no Cython in this sandbox).")
 ASSUMPTIONS = ["the .pyx is compiled with true division (Cython 3, language_level 3)", "sigma is symmetric bilinear over disjoint parts (symmetric kernel)",
                "signature table of the stock variables (DESIGN.md appendix B)"]
